@@ -85,18 +85,34 @@ def check_queries(o, pairs, omarks):
                         return False
                 # API layer: inherited lookups also report object-level markings
                 wapi = model_get(pairs, omarks, t, inh, desc, True)
-                if set(markings.get_markings(o, t, inh, desc)) != wapi:
+                if set(via.get_markings(o, t, inh, desc)) != wapi:
                     return False
                 if not (inh and K.open("C07-api-is-marked-inherited")):
                     for m in MARKS + OMARKS[2:]:
-                        if bool(markings.is_marked(o, m, t, inh, desc)) != (m in wapi):
+                        if bool(via.is_marked(o, m, t, inh, desc)) != (m in wapi):
                             return False
-    if set(markings.get_markings(o)) != set(omarks):
+    if set(via.get_markings(o)) != set(omarks):
         return False
     for m in OMARKS:
-        if bool(markings.is_marked(o, m)) != (m in omarks):
+        if bool(via.is_marked(o, m)) != (m in omarks):
             return False
-    return bool(markings.is_marked(o)) == bool(omarks)
+    return bool(via.is_marked(o)) == bool(omarks)
+
+
+_MIXIN = [False]        # True: call the methods library objects carry (obj.add_markings(...)) instead of the module functions
+
+
+class _Via:
+    """markings.<fn>(o, ...) or, for library objects when _MIXIN is set, o.<fn>(...)"""
+    def __getattr__(self, name):
+        def call(o, *a, **kw):
+            if _MIXIN[0] and hasattr(o, name):
+                return getattr(o, name)(*a, **kw)
+            return getattr(markings, name)(o, *a, **kw)
+        return call
+
+
+via = _Via()
 
 
 def apply_op(o, pairs, omarks, op, si, mi):
@@ -107,10 +123,10 @@ def apply_op(o, pairs, omarks, op, si, mi):
         had_any = bool(o.get("granular_markings"))
         try:
             if op == 0:
-                n = markings.add_markings(o, m, [s])
+                n = via.add_markings(o, m, [s])
                 exp = pairs | {(s, m)}
             elif op == 1:
-                n = markings.remove_markings(o, m, [s])
+                n = via.remove_markings(o, m, [s])
                 if not had_any:
                     exp = pairs
                 elif (s, m) not in pairs:
@@ -118,7 +134,7 @@ def apply_op(o, pairs, omarks, op, si, mi):
                 else:
                     exp = pairs - {(s, m)}
             elif op == 2:
-                n = markings.clear_markings(o, [s])
+                n = via.clear_markings(o, [s])
                 if not had_any:
                     exp = pairs
                 elif not any(p[0] == s for p in pairs):
@@ -126,7 +142,7 @@ def apply_op(o, pairs, omarks, op, si, mi):
                 else:
                     exp = {p for p in pairs if p[0] != s}
             else:
-                n = markings.set_markings(o, m, [s])
+                n = via.set_markings(o, m, [s])
                 if had_any and not any(p[0] == s for p in pairs):
                     return o, pairs, omarks, False
                 exp = {p for p in pairs if p[0] != s} | {(s, m)}
@@ -138,10 +154,10 @@ def apply_op(o, pairs, omarks, op, si, mi):
     m = OMARKS[mi % len(OMARKS)]
     try:
         if op == 4:
-            n = markings.add_markings(o, m)
+            n = via.add_markings(o, m)
             exp = omarks | {m}
         elif op == 5:
-            n = markings.remove_markings(o, m)
+            n = via.remove_markings(o, m)
             if not omarks:
                 exp = omarks
             elif m not in omarks:
@@ -149,10 +165,10 @@ def apply_op(o, pairs, omarks, op, si, mi):
             else:
                 exp = omarks - {m}
         elif op == 6:
-            n = markings.clear_markings(o)
+            n = via.clear_markings(o)
             exp = set()
         else:
-            n = markings.set_markings(o, m)
+            n = via.set_markings(o, m)
             exp = {m}
     except MarkingNotFoundError:
         return o, pairs, omarks, op == 5 and bool(omarks) and m not in omarks
@@ -268,7 +284,11 @@ def seq2_objects(o1: int, s1: int, m1: int, o2: int, s2: int, m2: int) -> bool:
     """
     ops = [(pick(o1, 4), pick(s1, NP), pick(m1, 4)), (pick(o2, 4), (0, 1, 3, 7, 8)[pick(s2, 5)], pick(m2, 4))]
     with Native():
-        ok = run_seq(ops, 1)
+        _MIXIN[0] = True
+        try:
+            ok = run_seq(ops, 1)
+        finally:
+            _MIXIN[0] = False
     V.reached()
     return ok
 
